@@ -23,12 +23,13 @@ def gen_typed_column(R, n, kind=None, allow_null=True):
         else: vals = [R.choice([0, 7, -3])] * n
         return kind, pd.Series(vals, dtype="int64")
     if kind == "float":
-        style = R.choice(["cat", "cont", "tiny", "huge", "money", "const", "pvalue"])
+        style = R.choice(["cat", "cont", "tiny", "huge", "money", "const", "pvalue", "fullprec"])
         if style == "cat": ks = [R.choice([0.5, 1.25, 2.0, 3.75, -1.5, 10.0]) for _ in range(R.choice([2, 3, 5]))]; vals = [R.choice(ks) for _ in range(n)]
         elif style == "cont": vals = [round(R.gauss(50, 20), R.choice([0, 1, 3])) for _ in range(n)]
         elif style == "tiny": vals = [R.choice([1.5e-9, 2.5e-9, 4e-9, 1.25e-8]) for _ in range(n)]
         elif style == "huge": vals = [R.choice([1e9, 2.5e9, 1e9 + 0.5, -3e8]) for _ in range(n)]
         elif style == "pvalue": vals = [R.choice([3.2e-16, 4.7e-17, 1.5e-18, 0.05]) for _ in range(n)]      # more than 15 decimal places
+        elif style == "fullprec": vals = [R.choice([0.1 + 0.2, 1 / 3, 1700000000.123456, 123456789.12345679, 2 / 7, 0.5]) for _ in range(n)]      # 16-17 significant digits
         elif style == "money": vals = [round(R.lognormvariate(3, 1), 2) for _ in range(n)]
         else: vals = [R.choice([0.0, 2.5, -1e-6])] * n
         s = pd.Series(vals, dtype=float)
